@@ -1,9 +1,79 @@
-"""BX engine (bounded stand-in executing the real code) - filled in later."""
+"""BX engine: bounded stand-in that executes the real crates (path dependencies on /repo) against the
+contracts written as run-time oracles; also the replay driver and the witness finder."""
+import json
+import os
+import subprocess
+import time
+
+ROOT = os.path.dirname(os.path.dirname(os.path.abspath(__file__)))
+TARGET = os.path.join(ROOT, 'build', 'bx-target')
+BIN = os.path.join(TARGET, 'debug', 'bx')
+
+
+def build():
+    env = dict(os.environ)
+    env['CARGO_NET_OFFLINE'] = 'true'
+    env['CARGO_TARGET_DIR'] = TARGET
+    p = subprocess.run(['cargo', 'build', '--offline', '--bin', 'bx'], cwd=os.path.join(ROOT, 'bx'), env=env,
+                       stdout=subprocess.PIPE, stderr=subprocess.STDOUT, text=True)
+    if p.returncode != 0:
+        errs = '\n'.join(l for l in p.stdout.split('\n') if l.startswith('error'))[:800]
+        return 'bx does not build against the current tree (public API changed?): ' + errs
+    return None
 
 
 def run_modes(pid, modes, tier='quick', seed=1):
-    return {'report': [], 'cmds': [], 'violations': [], 'undecided': [], 'samples': [], 'evaluations': 0, 'distinct': 0}
+    out = {'report': [], 'cmds': [], 'violations': [], 'undecided': [], 'samples': [], 'evaluations': 0, 'distinct': 0}
+    err = build()
+    if err:
+        out['undecided'].append('bx: ' + err)
+        return out
+    for mode in modes:
+        cmd = [BIN, mode, tier, str(seed)]
+        t0 = time.time()
+        try:
+            p = subprocess.run(cmd, stdout=subprocess.PIPE, stderr=subprocess.PIPE, text=True, timeout=3600 if tier == 'thorough' else 600)
+        except subprocess.TimeoutExpired:
+            out['violations'].append({'engine': 'bx', 'key': '%s:hang' % pid, 'what': 'bounded stand-in %s did not terminate within the time limit' % mode, 'obligation': 'bx::' + mode, 'witness': mode + ':rerun'})
+            continue
+        dt = time.time() - t0
+        out['cmds'].append('bx/target/debug/bx %s %s %d   (crate bx, path dependencies on /repo/stun-types and /repo/stun-proto)' % (mode, tier, seed))
+        last = p.stdout.strip().split('\n')[-1] if p.stdout.strip() else ''
+        try:
+            d = json.loads(last)
+        except Exception:
+            # the process died: a crash (stack overflow, abort) in the real code
+            tail = (p.stderr or '')[-600:]
+            out['violations'].append({'engine': 'bx', 'key': '%s:crash' % pid, 'what': 'bounded stand-in %s crashed (rc %s): %s' % (mode, p.returncode, tail), 'obligation': 'bx::' + mode, 'witness': mode + ':rerun'})
+            continue
+        if 'error' in d:
+            out['undecided'].append('bx/%s: %s' % (mode, d['error']))
+            continue
+        out['evaluations'] += d['evaluations']
+        out['distinct'] += d['distinct_nontrivial']
+        out['report'].append({'mode': mode, 'evaluations': d['evaluations'], 'distinct_nontrivial': d['distinct_nontrivial'], 'rule': d['rule'], 'exhaustive_part': d.get('notes', []),
+                              'bounded': True, 'wall_s': round(dt, 2), 'violations': len(d['violations'])})
+        out['samples'] += [{'engine': 'bx', 'mode': mode, 'case': s} for s in d['samples'][:3]]
+        seen = set()
+        for v in d['violations']:
+            # only failures of this property count here (other properties have their own check)
+            if not v['key'].upper().startswith(pid.upper()):
+                continue
+            if v['key'] in seen and len(seen) > 0 and sum(1 for x in out['violations'] if x['key'] == v['key']) >= 3:
+                continue
+            seen.add(v['key'])
+            out['violations'].append({'engine': 'bx', 'key': v['key'], 'what': v['what'], 'obligation': 'bx::%s::%s' % (mode, v['key']), 'witness': v['witness'], 'seed': seed})
+    return out
 
 
 def replay_witness(pid, v):
-    return False
+    err = build()
+    if err:
+        print(err)
+        return False
+    env = dict(os.environ)
+    if v.get('seed') is not None:
+        env['VERIF_SEED'] = str(v['seed'])
+    p = subprocess.run([BIN, 'replay', v['witness']], stdout=subprocess.PIPE, stderr=subprocess.PIPE, text=True, env=env)
+    print(p.stdout[-3000:])
+    return p.returncode == 1
